@@ -20,7 +20,8 @@ def tagged_request(rng, c, seq, body=None, expect=False, limit=51200):
     if rng.random() < 0.25:
         # headers the crate knows with values it does not support: ignored, the request is served as usual
         hs.append(rng.choice([b'Accept: */*', b'Accept: text/html', b'Content-Type: text/html', b'Transfer-Encoding: gzip',
-                              b'Accept-Encoding: gzip, deflate', b'accept:*/*', b'Accept-Encoding: br']))
+                              b'Accept-Encoding: gzip, deflate', b'accept:*/*', b'Accept-Encoding: br', b'Accept-Encoding: gzip;q=',
+                              b'Accept-Encoding: identity;q=0.0']))
     if body is None:
         body = b''
         if m != b'GET' and rng.random() < 0.5:
